@@ -83,6 +83,7 @@ class Ctx:
         self.do_sweep = True
         self.allow_concretize = False
         self.consts = {}  # name -> (z3 var, float) algebraic constants (sqrt 2, sqrt 3, ...)
+        self.monotone = False  # add pairwise strict-monotonicity axioms between atoms of exp/log/sqrt/erf/atan
 
     def check(self, f, timeout=30000):
         """decide validity of f under the path condition: 'unsat' (valid), 'sat' (+model), 'unknown'"""
@@ -337,12 +338,19 @@ def as_sym(x):
     if isinstance(x, Sym):
         return x
     if isinstance(x, SymB):
+        if CTX.do_sweep:
+            if x.c and CTX.valid(x.f):
+                return Sym.const(1.0)
+            if not x.c and CTX.valid(z3.Not(x.f)):
+                return Sym.const(0.0)
         return ite(x, Sym.const(1.0), Sym.const(0.0))
     if isinstance(x, (bool, np.bool_)):
         return Sym.const(1.0 if x else 0.0)
     if isinstance(x, (int, float, np.integer, np.floating, Fraction)):
         if isinstance(x, (float, np.floating)) and x != x:
             return NAN
+        if isinstance(x, (float, np.floating)) and math.isinf(x):
+            return float(x)  # infinities stay python floats: legal only in comparisons and as a dead `where` branch
         return Sym.const(x)
     raise TypeError("as_sym: %r" % (type(x),))
 
@@ -398,6 +406,10 @@ def sym_cmp(op, a, b):
     a, b = as_sym(a), as_sym(b)
     if a is NAN or b is NAN:
         return op == "ne"
+    if isinstance(a, float) or isinstance(b, float):  # an infinity against a finite real (or another infinity)
+        fa = a if isinstance(a, float) else 0.0
+        fb = b if isinstance(b, float) else 0.0
+        return {"ge": fa >= fb, "gt": fa > fb, "le": fa <= fb, "lt": fa < fb, "eq": fa == fb, "ne": fa != fb}[op]
     c = {"ge": a.c >= b.c, "gt": a.c > b.c, "le": a.c <= b.c, "lt": a.c < b.c, "eq": a.c == b.c, "ne": a.c != b.c}[op]
     if a.is_const() and b.is_const():
         fa, fb = fr(a.n), fr(b.n)
@@ -424,6 +436,16 @@ def ite(cond, a, b):
     a, b = as_sym(a), as_sym(b)
     if a is b:
         return a
+    if isinstance(a, float) or isinstance(b, float):
+        # an infinite branch value: only if that branch is provably dead on this path
+        dead_a = isinstance(a, float)
+        if dead_a and isinstance(b, float):
+            raise Unsupported("where() with infinite values in both branches")
+        if (cond.c if dead_a else not cond.c):
+            raise Unsupported("infinite value selected at the witness")
+        if CTX.valid(z3.Not(cond.f) if dead_a else cond.f, 20000):
+            return b if dead_a else a
+        raise Unsupported("where() with an infinite branch that is not provably dead")
     if a is NAN or b is NAN:
         raise Unsupported("NaN under a symbolic condition")
     if a.d.eq(b.d):
@@ -593,6 +615,10 @@ def ufun(fname, arg, cval_, axioms=None):
     r = Sym(v, ONE, float(cval_))
     if axioms:
         CTX.pc.extend(axioms(v, arg))
+    if CTX.monotone and fname in ("exp", "log", "sqrt", "erf", "atan"):
+        for a_old, r_old in tab:
+            CTX.pc.append(z3.Implies(gt_formula(a_old, arg), r_old.n > v))
+            CTX.pc.append(z3.Implies(gt_formula(arg, a_old), v > r_old.n))
     tab.append((arg, r))
     CTX.fun_of[v.get_id()] = (fname, arg, r)
     CTX.reps.setdefault(key(r.c), []).append(r)
@@ -670,6 +696,23 @@ def sym_sqrt(t, strict=False):
     return ufun("sqrt", t, c, ax)
 
 
+_occ_memo = {}
+
+
+def _occurs(var, term):
+    """does z3 variable `var` occur in `term`?"""
+    key_ = (var.get_id(), term.get_id())
+    r = _occ_memo.get(key_)
+    if r is not None:
+        return r
+    if term.get_id() == var.get_id():
+        r = True
+    else:
+        r = any(_occurs(var, c) for c in term.children())
+    _occ_memo[key_] = r
+    return r
+
+
 def sym_exp(t):
     t = as_sym(t)
     if t is NAN:
@@ -678,11 +721,25 @@ def sym_exp(t):
     sp = _split_ite(t)
     if sp is not None:
         return ite(sp[0], sym_exp(sp[1]), sym_exp(sp[2]))
-    if t.is_const() and fr(t.n) == 0:
-        return Sym.const(1.0)
+    if t.is_const():
+        return Sym.const(1.0) if fr(t.n) == 0 else Sym.const(math.exp(t.c))  # concrete, as the real kernel computes it
     w = _lookup_result("log", t)  # exp(log w) = w
     if w is not None:
         return w
+    # exp(t' + k log w) = w^k exp(t')  for a log atom occurring linearly (k in {1,-1,2,-2}); each step validated by
+    # the disappearance of the atom from the z3-simplified remainder
+    for (w, r) in list(CTX.fun.get("log", [])):
+        if not _occurs(r.n, t.n):
+            continue
+        for k_ in (1, -1, 2, -2):
+            rest = norm(t - r * Sym.const(float(k_)))
+            if rest.is_const() or not (_occurs(r.n, rest.n) or _occurs(r.n, rest.d)):
+                return (w ** k_) * sym_exp(rest)
+    # exp(-a) = 1 / exp(a) for an existing atom exp(a)
+    neg = -t
+    for a, r in CTX.fun.get("exp", []):
+        if key(a.c) == key(neg.c) and CTX.valid(eq_formula(a, neg)):
+            return r.inv()
     return ufun("exp", t, math.exp(t.c), lambda v, a: [v > 0])
 
 
@@ -695,6 +752,8 @@ def sym_log(t):
         return Sym.const(0.0)
     if t.c <= 0:
         raise Unsupported("log of a term non-positive at the witness")
+    if t.is_const():
+        return Sym.const(math.log(t.c))
     a = _lookup_result("exp", t)  # log(exp a) = a
     if a is not None:
         return a
@@ -703,6 +762,18 @@ def sym_log(t):
     for r in CTX.reps.get(key(c), []):
         if r.c > 0 and CTX.valid(z3.And(eq_formula(r * r, t), r.n * r.d > 0)):
             return sym_log(r) * Sym.const(2.0)
+    # rule log(1/w) = -log w for an existing atom log w (solver-validated)
+    for w_, r_ in CTX.fun.get("log", []):
+        if abs(w_.c * t.c - 1.0) < 1e-9 and CTX.valid(eq_formula(w_ * t, Sym.const(1.0))):
+            return -r_
+    # rule log(n/d) = log n - log d for a genuine fraction with n, d > 0 (solver-validated)
+    if not t.d.eq(ONE) and not z3.is_rational_value(t.d):
+        ev = Eval()
+        nc, dc = ev.cev(t.n), ev.cev(t.d)
+        if nc > 0 and dc > 0 and CTX.valid(z3.And(t.n > 0, t.d > 0)):
+            return sym_log(Sym(t.n, ONE, nc)) - sym_log(Sym(t.d, ONE, dc))
+        if nc < 0 and dc < 0 and CTX.valid(z3.And(t.n < 0, t.d < 0)):
+            return sym_log(Sym(-t.n, ONE, -nc)) - sym_log(Sym(-t.d, ONE, -dc))
     # sign axioms: log t > 0 iff t > 1, log t < 0 iff t < 1 (t = n/d)
     def ax(v, a):
         gt1 = (a.n - a.d) * a.d > 0
@@ -725,7 +796,7 @@ def sym_sigmoid(t):
     if t is NAN:
         return NAN
     e = sym_exp(t)
-    return e / (e + Sym.const(1.0))
+    return sweep(e / (e + Sym.const(1.0)))
 
 
 def sym_expm1(t):
@@ -747,8 +818,8 @@ def sym_sin(t):
     sp = _split_ite(t)
     if sp is not None:
         return ite(sp[0], sym_sin(sp[1]), sym_sin(sp[2]))
-    if t.is_const() and fr(t.n) == 0:
-        return Sym.const(0.0)
+    if t.is_const():
+        return Sym.const(math.sin(t.c))
     return ufun("sin", t, math.sin(t.c), lambda v, a: [v >= -1, v <= 1])
 
 
@@ -757,20 +828,22 @@ def sym_cos(t):
     sp = _split_ite(t)
     if sp is not None:
         return ite(sp[0], sym_cos(sp[1]), sym_cos(sp[2]))
-    if t.is_const() and fr(t.n) == 0:
-        return Sym.const(1.0)
+    if t.is_const():
+        return Sym.const(math.cos(t.c))
     return ufun("cos", t, math.cos(t.c), lambda v, a: [v >= -1, v <= 1])
 
 
 def sym_erf(t):
     t = sweep(as_sym(t))
-    if t.is_const() and fr(t.n) == 0:
-        return Sym.const(0.0)
+    if t.is_const():
+        return Sym.const(math.erf(t.c))
     return ufun("erf", t, math.erf(t.c), lambda v, a: [v > -1, v < 1])
 
 
 def sym_lgamma(t):
     t = sweep(as_sym(t))
+    if t.is_const():
+        return Sym.const(math.lgamma(t.c))
     return ufun("lgamma", t, math.lgamma(t.c))
 
 
